@@ -245,6 +245,8 @@ def problem_model(prog, rep=None) -> ProblemModel:
     # attributes that are tested against None and memoised in the same function are caches even if a public method assigns
     # them (whether the invalidator resets them is R13.2's question, not part of the definition)
     model_attrs -= {a for a in model_attrs if a in memo}
+    # what the invalidator resets is derived state by definition
+    model_attrs -= set(reset) | set(cond_reset)
     # an attribute nothing reads is bookkeeping (a solve counter, the last method used), not part of the model: it cannot
     # reach a derived artefact.  Reads: `<problem>.a` loads anywhere in the package, or loads of a property that returns it,
     # provided that property is itself read somewhere; __repr__/__str__ do not count.
